@@ -19,8 +19,8 @@ def main(tier, seed):
     rep = Report("C15", tier, seed, "exploration", RULE)
     if common.warm_cache("jit") < 0:
         rep.inconclusive.append("JIT cache warm-up failed")
-    nb = 3 if q else 10
-    count = 45 if q else 150
+    nb = 3 if q else 24
+    count = 45 if q else 250
     axes = [("compiled", "jit", None), ("compiled_again", "jit", None), ("interpreted", "interp", None),
             ("compiled_history", "jit", 1), ("interpreted_history", "interp", 2)]
     jobs = {}
